@@ -118,7 +118,7 @@ func (s *Sim) recvPoint(n *RecvNode, label, path string) {
 	n.dirty.Store(true)
 	s.ob.onRecvPoint(n, label, path)
 	if gateLabels[label] || (optGateLabels[label] && s.hot[label]) {
-		s.observe("at %s %s", label, s.rel(path))
+		s.observeAt(n, "at %s %s", label, s.rel(path))
 		var onRel func()
 		if label == "stage.clean.begin" && s.onCleanRelease != nil {
 			onRel = func() { s.onCleanRelease(n) }
@@ -381,7 +381,7 @@ func (d *senderDeco) act(label, key string, network bool) {
 		// so they must not leave an observation behind
 		runtime.Goexit()
 	}
-	s.observe("want %s %s", label, key)
+	s.observeAt(d.n, "want %s %s", label, key)
 	s.park(d.n, label, key, func() {
 		d.n.actions++
 		s.stats["act:"+label]++
